@@ -126,7 +126,15 @@ def check_numeric(ctx: Ctx, rr: RuleResult, modules: Iterable[str], decoder_exem
                 rr.fail(where, f"float-valued library call in an exact integer conversion: `{txt}` (precision is lost beyond 2**53 units)", f"{fn.mod.rel}:{node.lineno}", rule_clause="float discipline")
             continue
         if kind in ("Div", "float"):
-            if _returns_float(ctx, fn):
+            # a float-returning function may still have an integer-valued arm: a quotient that is turned back into an integer
+            # (int(...), a from_* factory) is an exact-integer computation whatever the other arms return
+            back_to_int = False
+            q_ = getattr(node, "_parent", None)
+            while q_ is not None and not isinstance(q_, ast.stmt):
+                if isinstance(q_, ast.Call) and q_.func is not node and (unparse(q_.func) in ("int", "round", "math.trunc", "math.floor", "math.ceil") or unparse(q_.func).split(".")[-1].startswith(("from_", "_from_"))):
+                    back_to_int = True
+                q_ = getattr(q_, "_parent", None)
+            if _returns_float(ctx, fn) and not back_to_int:
                 rr.ok({"site": where, "op": txt, "why": "documented float API (return annotation includes float)"})
                 continue
             ok_a = a is not None and a.within(-F53, F53)
